@@ -15,7 +15,8 @@ pub struct PropDef {
     pub salt: u64,
     /// (quick histories, thorough histories, thorough long histories)
     pub budget: (u64, u64, u64),
-    pub spec: fn() -> FullWorldSpec,
+    /// workload specifications; history i uses specs[i % len]
+    pub specs: &'static [fn() -> FullWorldSpec],
     pub required: &'static [(&'static str, u64)],
     pub rule: &'static str,
 }
@@ -290,86 +291,120 @@ fn spec_c17() -> FullWorldSpec {
     }
 }
 
+fn spec_c14_full() -> FullWorldSpec {
+    let mut sp = spec_c19();
+    sp.monitors = || vec![Box::new(c14::C14::default()) as Box<dyn Monitor>];
+    sp.profile.w_claim = 10;
+    sp.profile.w_transfer = 8;
+    sp
+}
+
+fn spec_c15_full() -> FullWorldSpec {
+    let mut sp = spec_c19();
+    sp.monitors = || vec![Box::new(c15::C15::default()) as Box<dyn Monitor>];
+    sp.profile.w_claim = 8;
+    sp.profile.w_transfer = 10;
+    sp
+}
+
+fn spec_c16_reward() -> FullWorldSpec {
+    let mut sp = spec_c14();
+    sp.monitors = || vec![Box::new(c16::C16::default()) as Box<dyn Monitor>];
+    sp
+}
+
+fn spec_c18_full() -> FullWorldSpec {
+    let mut sp = spec_c16();
+    sp.monitors = || vec![Box::new(c18::C18::default()) as Box<dyn Monitor>];
+    sp
+}
+
+pub fn spec_c12_insitu() -> FullWorldSpec {
+    let mut sp = spec_c02();
+    sp.monitors = || vec![Box::new(c12::C12InSitu::default()) as Box<dyn Monitor>];
+    sp
+}
+
 pub fn defs() -> Vec<PropDef> {
     let _ = no_tune;
     vec![
         PropDef {
-            id: "C01", salt: 1, budget: (600, 12_000, 200), spec: spec_c01,
+            id: "C01", salt: 1, budget: (600, 12_000, 200), specs: &[spec_c01],
             required: &[("c01.withdraw_ok", 1), ("c01.release_groups_2plus", 1), ("c01.release_groups_3plus", 1), ("c01.release_groups_with_unbonding_slashing", 1), ("c01.release_groups_with_donation", 1), ("c01.release_groups_with_older_unpaid_claims", 1), ("c01.release_groups_mixed_tokens", 1), ("c01.dry_runs_with_3_or_more_claimants", 1), ("c01.release_groups_dust_bound_checked", 1)],
             rule: "full-world histories (seeded swarm config, boundary-biased amounts and clock moves); a case is a successful withdrawal or a release group; distinct = (kind, #batches paid / released together, slashed-while-unbonding?, donation in window?, older unpaid claims?, mixed tokens?, decade of value)",
         },
         PropDef {
-            id: "C02", salt: 2, budget: (500, 10_000, 100), spec: spec_c02,
+            id: "C02", salt: 2, budget: (500, 10_000, 100), specs: &[spec_c02],
             required: &[("c02.bond_executions", 1), ("c02.bonds_3plus_validators_some_skipped", 1), ("c02.bonds_right_after_removal", 1), ("c02.unbonds_undelegating_from_2plus_validators", 1), ("c02.pricing_ops_with_pending_slashing", 1), ("c02.balance_checks", 1)],
             rule: "full-world histories with uneven validators and registry changes; a case is a hub bond execution or an undelegating unbond; distinct = (kind, registry size, #targets, decade of amount, slashing pending?)",
         },
         PropDef {
-            id: "C03", salt: 3, budget: (500, 10_000, 100), spec: spec_c03,
+            id: "C03", salt: 3, budget: (500, 10_000, 100), specs: &[spec_c03],
             required: &[("c03.consistency_with_open_requests", 1), ("c03.consistency_rate_below_1", 1), ("c03.consistency_rate_equal_1", 1), ("c03.consistency_stsei_rate_above_1", 1), ("c03.mints_with_fee", 1), ("c03.mints_without_fee", 1), ("c03.converts_stsei_to_bsei", 1), ("c03.converts_bsei_to_stsei", 1), ("c03.undelegating_unbonds", 1)],
             rule: "full-world histories; a case is a successful mint / convert / undelegation priced against the pre-state; distinct = (path, rate class of each pool, decade of amount, fee charged?, open requests?)",
         },
         PropDef {
-            id: "C04", salt: 4, budget: (600, 12_000, 200), spec: spec_c04,
+            id: "C04", salt: 4, budget: (600, 12_000, 200), specs: &[spec_c04],
             required: &[("c04.rate_comparisons", 1), ("c04.passive_holder_value_checks", 1), ("c04.index_updates_rebonding", 1), ("c04.compared_after_unbond_bsei", 1), ("c04.compared_after_convert_bsei_stsei", 1), ("c04.compared_after_convert_stsei_bsei", 1), ("c04.compared_after_withdraw", 1), ("c04.compared_after_burn_from", 1), ("c04.compared_after_remove_validator", 1)],
             rule: "full-world histories; a case is a pair of consecutive quiescent states around a successful non-slashing step with the token outstanding; distinct = (op kind, token, rate class before, rate moved?, decade of claims)",
         },
         PropDef {
-            id: "C05", salt: 5, budget: (800, 15_000, 100), spec: spec_c05,
+            id: "C05", salt: 5, budget: (800, 15_000, 100), specs: &[spec_c05],
             required: &[("c05.bond.fee_charged", 1), ("c05.unbond.fee_charged", 1), ("c05.convert_stsei_bsei.fee_charged", 1), ("c05.convert_bsei_stsei.fee_charged", 1), ("c05.bond.restoring_cap_binding", 1), ("c05.unbond.restoring_cap_binding", 1), ("c05.convert_stsei_bsei.restoring_cap_binding", 1), ("c05.bond.at_or_above_threshold", 1), ("c05.ops_exactly_at_threshold_below_one", 1), ("c05.bond.proportional_cap_binding", 1), ("c05.unbond.proportional_cap_binding", 1)],
             rule: "full-world histories steered into slashed states with fee/threshold swarms; a case is a successful operation on one of the four fee paths; distinct = (path, below threshold?, fee charged?, proportional cap binding?, decade of base, rate class)",
         },
         PropDef {
-            id: "C06", salt: 6, budget: (600, 12_000, 100), spec: spec_c06,
+            id: "C06", salt: 6, budget: (600, 12_000, 100), specs: &[spec_c06],
             required: &[("c06.checks_both_pools_nonempty", 1), ("c06.checks_one_pool_empty", 1), ("c06.checks_no_slashing_pending", 1), ("c06.checks_heavy_loss", 1), ("c06.explicit_checks_recognising_slashing", 1), ("c06.release_groups_2plus_with_loss", 1)],
             rule: "full-world histories with frequent slashing; a case is a quiescent state with unrecognised slashing, or a release group with loss; distinct = (kind, empty pool?, decade of loss, decade of books / group shape)",
         },
         PropDef {
-            id: "C07", salt: 7, budget: (500, 10_000, 100), spec: spec_c07,
+            id: "C07", salt: 7, budget: (500, 10_000, 100), specs: &[spec_c07],
             required: &[("c07.unbonds", 1), ("c07.unbonds_via_send_from", 1), ("c07.unbonds_closing_a_batch", 1), ("c07.unbonds_into_mixed_batch", 1), ("c07.withdrawals", 1), ("c07.forged_receive_rejected", 1), ("c07.closed_batch_sum_checks", 1)],
             rule: "full-world histories with many unbonders and allowances; a case is an accepted unbond; distinct = (token, via allowance?, fee charged?, closes batch?, decade of amount, ledger size)",
         },
         PropDef {
-            id: "C08", salt: 8, budget: (600, 12_000, 100), spec: spec_c08,
+            id: "C08", salt: 8, budget: (600, 12_000, 100), specs: &[spec_c08],
             required: &[("c08.undelegations", 1), ("c08.releases", 1), ("c08.releases_exactly_at_boundary", 1), ("c08.withdraw_attempts_one_second_early", 1), ("c08.undelegations_first_second_after_epoch", 1), ("c08.unbonds_exactly_at_epoch_boundary_not_undelegating", 1), ("c08.withdrawals_with_unripe_claims_left", 1)],
             rule: "full-world histories with boundary-second clock moves; a case is an undelegation or a withdrawal; distinct = (kind, shape, boundary flags)",
         },
         PropDef {
-            id: "C09", salt: 9, budget: (300, 5_000, 50), spec: spec_c09,
+            id: "C09", salt: 9, budget: (300, 5_000, 50), specs: &[spec_c09],
             required: &[("c09.exit_states_sampled", 1), ("c09.exit_withdraw_ok", 1), ("c09.exit_states_dust", 1), ("c09.staggered_second_claim_paid", 1), ("c09.paired_fault_runs", 1), ("c09.traces_checked", 1)],
             rule: "full-world histories; cases are (a) exit dry-runs (unbond -> epoch -> undelegate -> unbonding -> withdraw) from sampled reachable states for every holder, token and three amounts, (b) each exit-type operation re-run under 15 swap/oracle failure patterns; distinct = (kind, token / op, decades, dust state?, rate class)",
         },
         PropDef {
-            id: "C13", salt: 13, budget: (400, 8_000, 100), spec: spec_c13,
+            id: "C13", salt: 13, budget: (400, 8_000, 100), specs: &[spec_c13],
             required: &[("c13.removals_with_stake_redelegated", 1), ("c13.removals_while_redelegation_locked", 1), ("c13.last_validator_removal_rejected", 1), ("c13.removals_of_re_added_validator", 1), ("c13.removals_with_pending_rewards", 1), ("c13.removals_with_inflight_batches", 1), ("c13.delegations_checked", 1)],
             rule: "full-world histories with frequent registry changes; a case is a successful removal by the owner; distinct = (kind, registry size, #redelegations, decade of stake, pending rewards?)",
         },
         PropDef {
-            id: "C14", salt: 14, budget: (1000, 20_000, 100), spec: spec_c14,
+            id: "C14", salt: 14, budget: (1000, 20_000, 100), specs: &[spec_c14, spec_c14, spec_c14_full],
             required: &[("c14.invariant_checks", 1), ("c14.index_updates_with_holders", 1), ("c14.index_updates_without_holders", 1), ("c14.index_updates_without_holders_with_undistributed_delivery", 1), ("c14.claims_ok", 1), ("c14.claims_to_third_party", 1), ("c14.claims_keeping_a_fraction", 1), ("c14.claims_rejected_below_one_unit", 1), ("c14.updates_one_unit_against_huge_supply", 1), ("c14.updates_huge_reward_against_dust_supply", 1)],
             rule: "reward-contract world (real reward contract + bSei token + hub config; deliveries by bank transfer + UpdateGlobalIndex from the dispatcher address; mint/burn by the hub address); a case is a claim or an index update; distinct = (kind, decade of amount, fraction kept? / decade of supply, third-party recipient?, #holders)",
         },
         PropDef {
-            id: "C15", salt: 15, budget: (500, 10_000, 100), spec: spec_c15,
+            id: "C15", salt: 15, budget: (500, 10_000, 100), specs: &[spec_c15, spec_c15, spec_c15_full],
             required: &[("c15.ledger_comparisons", 1), ("c15.updates_with_3plus_holders", 1), ("c15.claims", 1), ("c15.balance_changes_checked", 1), ("c15.twins_reordered_compared", 1), ("c15.twins_others_claims_removed_compared", 1), ("c15.twins_split_compared", 1)],
             rule: "reward-contract world; reference ledger in exact 1e-36 arithmetic fed by observed balances and deliveries; plus three relational twins per history replayed from the initial world (other holders' operations between updates reordered; other holders' claims / allowance operations removed; the observed position split over two accounts), compared in exact 1e-18 units; a case is an index update with holders; distinct = (#holders, decade of delivery, decade of supply)",
         },
         PropDef {
-            id: "C16", salt: 16, budget: (600, 12_000, 100), spec: spec_c16,
+            id: "C16", salt: 16, budget: (600, 12_000, 100), specs: &[spec_c16, spec_c16, spec_c16_reward],
             required: &[("c16.mirror_checks", 1), ("c16.bsei_op.transfer", 1), ("c16.bsei_op.transfer_from.via_allowance", 1), ("c16.bsei_op.burn_from.via_allowance", 1), ("c16.bsei_op.unbond_bsei", 1), ("c16.bsei_op.unbond_bsei.via_allowance", 1), ("c16.bsei_op.convert_bsei_stsei", 1), ("c16.bsei_op.convert_stsei_bsei", 1), ("c16.bsei_op.send_dummy", 1), ("c16.self_transfers", 1)],
             rule: "full-world histories heavy on bSei token operations; a case is a successful bSei-touching operation; distinct = (op kind, via allowance?, self transfer?, #holders, decade of supply)",
         },
         PropDef {
-            id: "C17", salt: 17, budget: (600, 15_000, 100), spec: spec_c17,
+            id: "C17", salt: 17, budget: (600, 15_000, 100), specs: &[spec_c17],
             required: &[("c17.swaps_judged", 1), ("c17.dispatches_judged", 1), ("c17.swaps_with_extra_denom", 1), ("c17.swaps_one_sided_bonded", 1), ("c17.swaps_one_sided_balances", 1), ("c17.dispatches_with_nothing", 1)],
             rule: "dispatcher world (real dispatcher driven by the hub address; real hub / reward contract / registry behind it; stub swap and oracle); a case is a SwapToRewardDenom or DispatchRewards execution; distinct = (kind, decades of holdings, one-sided bonded?, decades of bonded, decade of price, direction, extra denom? / keeper rate class)",
         },
         PropDef {
-            id: "C18", salt: 18, budget: (1000, 20_000, 100), spec: spec_c18,
+            id: "C18", salt: 18, budget: (1000, 20_000, 100), specs: &[spec_c18, spec_c18, spec_c18_full],
             required: &[("c18.conservation_checks", 1), ("c18.worlds_with_initial_balances", 1), ("c18.mints_by_others_rejected", 1), ("c18.burns_by_others_rejected", 1), ("c18.burns_by_hub", 1), ("c18.transfer_from_ok", 1), ("c18.burn_from_ok", 1), ("c18.send_from_ok", 1), ("c18.spends_rejected_expired", 1), ("c18.spends_rejected_over_allowance", 1), ("c18.spends_under_expiring_allowance", 1), ("c18.burns_requiring_rate_refresh", 1)],
             rule: "token world (both real tokens instantiated with random initial balances incl. repeated / differently-cased addresses and zero rows; reward hook on a dummy; real hub) driven by arbitrary principals; a case is a successful token operation; distinct = (op kind, #bSei accounts, #stSei accounts, #live allowances)",
         },
         PropDef {
-            id: "C19", salt: 19, budget: (400, 8_000, 100), spec: spec_c19,
+            id: "C19", salt: 19, budget: (400, 8_000, 100), specs: &[spec_c19],
             required: &[("c19.updates_judged", 1), ("c19.updates_rebonding", 1), ("c19.updates_delivering_to_holders", 1), ("c19.updates_with_rewards_on_2plus_validators", 1), ("c19.updates_with_nothing_pending", 1), ("c19.updates_split_checked_both_pools", 1)],
             rule: "full-world histories with multi-denomination reward accrual; a case is an UpdateGlobalIndex by the designated updater; distinct = (empty bSei pool?, empty stSei pool?, decades of rewards, extra denom?, re-bond?, holders?, in-flight batch?)",
         },
@@ -431,7 +466,8 @@ pub fn run_cli(args: &[String]) -> i32 {
         }
     };
     let t0 = std::time::Instant::now();
-    let spec = (d.spec)();
+    let specs: Vec<FullWorldSpec> = d.specs.iter().map(|f| f()).collect();
+    let pick = |i: u64| -> &FullWorldSpec { &specs[(i % specs.len() as u64) as usize] };
     let (n_short, n_long) = if tier == "quick" { (d.budget.0, 0) } else { (d.budget.1, d.budget.2) };
     let n_short = histories.unwrap_or(n_short);
     let salt = d.salt;
@@ -447,14 +483,15 @@ pub fn run_cli(args: &[String]) -> i32 {
         let rseed = v["seed"].as_u64().unwrap_or(seed);
         let idx = v["history_index"].as_u64().unwrap_or(0);
         seed = rseed;
-        run_sharded(1, 1, |_| run_full_history(&spec, rseed, salt, idx, idx >= LONG_BASE))
+        run_sharded(1, 1, |_| run_full_history(pick(idx), rseed, salt, idx, idx >= LONG_BASE))
     } else {
         let total = n_short + n_long;
         run_sharded(total, threads, |i| {
             if i < n_short {
-                run_full_history(&spec, seed, salt, i, false)
+                run_full_history(pick(i), seed, salt, i, false)
             } else {
-                run_full_history(&spec, seed, salt, LONG_BASE + (i - n_short), true)
+                let j = LONG_BASE + (i - n_short);
+                run_full_history(pick(j), seed, salt, j, true)
             }
         })
     };
